@@ -80,6 +80,8 @@ def hook_stubs(ex):
     def meas(it, a, k):
         q = k.get("q_address", a[2] if len(a) > 2 else None)
         ex.events.append(("meas", q))
+        if getattr(ex, "outcomes", None):
+            return ex.outcomes.pop(0)
         return ex.outcome
 
     def clear(it, a, k):
